@@ -778,6 +778,12 @@ static int load_touchstone1(ts_parser_state_t *tpsp)
 	     * Validate and load the frequency.
 	     */
 	    findex = vdp->vd_frequencies;
+	    if (!(tpsp->tps_value_vector[0] >= 0.0)) {
+		_vnadata_error(vdip, VNAERR_SYNTAX, "%s (line %d) error: "
+			"frequency cannot be negative",
+			tpsp->tps_filename, tpsp->tps_line);
+		return -1;
+	    }
 	    if (findex != 0 &&
 		    tpsp->tps_frequency_multiplier *
 		    tpsp->tps_value_vector[0] <= vnadata_get_frequency(vdp,
@@ -870,6 +876,12 @@ static int load_touchstone1(ts_parser_state_t *tpsp)
 	for (;;) {
 	    /* first row */
 	    findex = vdp->vd_frequencies;
+	    if (!(tpsp->tps_value_vector[0] >= 0.0)) {
+		_vnadata_error(vdip, VNAERR_SYNTAX, "%s (line %d) error: "
+			"frequency cannot be negative",
+			tpsp->tps_filename, tpsp->tps_line);
+		return -1;
+	    }
 	    if (findex != 0 &&
 		    tpsp->tps_frequency_multiplier *
 		    tpsp->tps_value_vector[0] <= vnadata_get_frequency(vdp,
@@ -1504,6 +1516,12 @@ int _vnadata_load_touchstone(vnadata_internal_t *vdip, FILE *fp,
 	if (tps.tps_token != T_DOUBLE) {
 	    _vnadata_error(vdip, VNAERR_SYNTAX, "%s (line %d) error: "
 		    "expected frequency",
+		    tps.tps_filename, tps.tps_line);
+	    goto out;
+	}
+	if (!(tps.u.tps_double >= 0.0)) {
+	    _vnadata_error(vdip, VNAERR_SYNTAX, "%s (line %d) error: "
+		    "frequency cannot be negative",
 		    tps.tps_filename, tps.tps_line);
 	    goto out;
 	}
